@@ -318,6 +318,112 @@ def check(ctx):
                      key="realized_volatility:value", detail={"impl": got, "expected": exp})
         rv_reqs.append({"op": "var_swap", "dt": float_bits(dt), "strike": float_bits(0.0), "paths": enc_flt([path])})
         rv_meta.append(got)
+    # ---------------- one WhalleyWilmott module used again after the cost of its underlier changed (cost -> 0: the band collapses
+    # onto the Black-Scholes delta; 0 -> cost > 0: the band opens): forward / width follow the cost the underlier has at call time
+    for _ in range(40 if ctx.tier == "quick" else 600):
+        a = g.choice([0.25, 1.0, 3.0, 1.0])
+        k = g.choice([0.5, 1.0, 2.0, 1.0, 7.5])
+        call = g.chance(0.7)
+        costs = [g.choice([0.0, 1e-4, 1e-3, 1e-2, 5e-2])]
+        for _i in range(g.choice([1, 2, 2])):
+            costs.append(g.choice([c for c in [0.0, 0.0, 1e-4, 1e-3, 1e-2, 5e-2] if c != costs[-1]]))
+        stock = BrownianStock(cost=costs[0], dtype=torch.float64)
+        d = EuropeanOption(stock, call=call, strike=k)
+        m = WhalleyWilmott(d, a=a)
+        bs = BlackScholes(EuropeanOption(BrownianStock(dtype=torch.float64), call=call, strike=k))   # delta / gamma do not involve the cost
+        for stage, cost in enumerate(costs):
+            if stage > 0:
+                stock.cost = cost
+            old = costs[stage - 1] if stage > 0 else cost
+            rows = []
+            for _j in range(3):
+                s = g.r.uniform(-0.5, 0.5)
+                t = g.choice([0.01, 0.1, 0.25, 1.0, 2.0, g.r.uniform(0.01, 3)])
+                v = g.choice([0.1, 0.2, 0.5, g.r.uniform(0.05, 1.0)])
+                x3 = torch.tensor([[s, t, v]], dtype=torch.float64)
+                with torch.no_grad():
+                    delta = float(bs(x3))
+                    gam = float(bs.gamma(x3[..., [0]], x3[..., [1]], x3[..., [2]]))
+                spot = k * math.exp(s)
+                wdoc = (3 * cost * gam ** 2 * spot / (2 * a)) ** (1 / 3)
+                wold = (3 * old * gam ** 2 * spot / (2 * a)) ** (1 / 3)
+                where = g.choice(["in_current", "in_previous", "outside_both", "on_hi", "on_lo", "at_delta"])
+                sgn = g.choice([-1, 1])
+                prev = {"in_current": delta + sgn * wdoc * g.r.uniform(0.1, 0.9), "in_previous": delta + sgn * wold * g.r.uniform(0.1, 0.9),
+                        "outside_both": delta + sgn * (max(wdoc, wold) + g.r.uniform(0.01, 1)), "on_hi": delta + wdoc, "on_lo": delta - wdoc,
+                        "at_delta": delta}[where]
+                rows.append([s, t, v, prev])
+                st, o, mut = call_impl(m, torch.tensor([[s, t, v, prev]], dtype=torch.float64))
+                st2, w, mut2 = call_impl(m.width, x3)
+                case = {"cost": cost, "costs_so_far": costs[:stage + 1], "a": a, "k": k, "call": call, "row": [s, t, v, prev], "where": where}
+                ctx.case(case, nontrivial=stage > 0, tag="ww:cost-changed" if stage > 0 else "ww:before-cost-change")
+                ctx.stats[f"ww:cost-change={'none' if stage == 0 else ('to-zero' if cost == 0 else ('from-zero' if old == 0 else 'pos-to-pos'))}"] += 1
+                ctx.traces += 1
+                if mut or mut2:
+                    ctx.mutated("WhalleyWilmott", mut or mut2, case)
+                if st != "ok" or st2 != "ok":
+                    ctx.fail("Whalley-Wilmott module raised when used again after the cost of its underlier changed", case,
+                             key="WhalleyWilmott:cost-changed:error", detail=o if st != "ok" else w)
+                    continue
+                out, wid = float(o.detach()), float(w.detach())
+                sfx = ":cost-changed" if stage > 0 else ""
+                if abs(wid - wdoc) > 1e-7 * wdoc + 1e-12:
+                    ctx.fail("WhalleyWilmott.width is not (3 c gamma^2 S / (2a))^(1/3) for the cost c the underlier has now", case,
+                             key="WhalleyWilmott.width" + (sfx or ":value"), detail={"impl": wid, "width_doc": wdoc, "width_for_previous_cost": wold})
+                lo_, hi_ = delta - wdoc, delta + wdoc
+                exp = prev if lo_ <= prev <= hi_ else (hi_ if prev > hi_ else lo_)
+                if abs(out - exp) > 1e-9 * (1 + abs(exp)) + 1e-7 * wdoc:
+                    ctx.fail("Whalley-Wilmott hedge is not clamp(prev, delta -/+ (3 c gamma^2 S / (2a))^(1/3)) for the cost c the underlier has now", case,
+                             key="WhalleyWilmott.forward:band" + sfx, detail={"impl": out, "expected": exp, "delta": delta, "width_doc": wdoc,
+                                                                               "width_for_previous_cost": wold})
+                if cost == 0 and abs(out - delta) > 1e-12:
+                    ctx.fail("Whalley-Wilmott differs from the Black-Scholes delta although the cost of the underlier is zero now", case,
+                             key="WhalleyWilmott.forward:zero-cost" + sfx, detail={"impl": out, "delta": delta})
+                wwmeta.append((case, out))
+            wwreqs.append({"op": "ww_full", "cost": float_bits(cost), "a": float_bits(a), "k": float_bits(k), "call": call,
+                           "elems": enc_flt(rows)})
+    # ---------------- tensor-valued dt: 0-dim, one interval per path (shape (N,) for input (N,T), (N,M) for input (N,M,T)), incl. the
+    # coincidence "last batch dimension == T-1"; oracle: sigma^2 = 1/(T-1) sum_i (1/dt) log(S_{i+1}/S_i)^2 path by path
+    for _ in range(120 if ctx.tier == "quick" else 1500):
+        T = g.small((2, 3, 4, 5, 8, 20))
+        layout = g.choice(["(T,)/0-dim", "(N,T)/0-dim", "(N,T)/(N,)", "(N,T)/(N,)", "(N,M,T)/0-dim", "(N,M,T)/(N,M)", "(N,M,T)/(N,M)"])
+        N = 1 if layout.startswith("(T,)") else g.choice([max(T - 1, 1), max(T - 1, 1), 1, 2, 3, 5, T])
+        M = g.choice([max(T - 1, 1), max(T - 1, 1), 1, 2, 3]) if layout.startswith("(N,M,T)") else 1
+        fn_name = g.choice(["realized_volatility", "realized_variance"])
+        paths = [[math.exp(g.r.uniform(-0.3, 0.3)) for _t in range(T)] for _p in range(N * M)]      # row-major over (N, M)
+        if layout.endswith("0-dim"):
+            dts = [g.choice([1 / 250, 0.1, 1 / 12, g.r.uniform(0.001, 1.0)])] * (N * M)
+            dt_t = torch.tensor(dts[0], dtype=torch.float64)
+        else:
+            dts = [g.choice([1 / 250, 0.1, 1 / 12, 1.0, g.r.uniform(0.001, 1.0)]) for _p in range(N * M)]
+            dt_t = torch.tensor(dts, dtype=torch.float64).reshape((N,) if layout.startswith("(N,T)") else (N, M))
+        shape = {"(T,)": (T,), "(N,T)": (N, T), "(N,M,T)": (N, M, T)}[layout.split("/")[0]]
+        x = torch.tensor(paths, dtype=torch.float64).reshape(shape)
+        case = {"fn": fn_name, "layout": layout, "input_shape": list(shape), "dt_shape": list(dt_t.shape), "paths": paths, "dt": dts}
+        ctx.case(case, True, tag="realized:tensor-dt")
+        ctx.stats[f"realized:layout={layout}"] += 1
+        ctx.stats[f"realized:last-batch-dim==T-1={len(shape) > 1 and shape[-2] == T - 1}"] += 1
+        ctx.traces += 1
+        st, v, mut = call_impl(getattr(fnl, fn_name), x, dt_t)
+        if mut:
+            ctx.mutated(fn_name, mut, case)
+        if st != "ok" or tuple(v.shape) != tuple(shape[:-1]):
+            ctx.fail(f"{fn_name} raises / returns a wrong shape for a tensor dt with one interval per path (shape of the output)", case,
+                     key=f"{fn_name}:tensor-dt:error", detail=v if st != "ok" else list(v.shape))
+            continue
+        got = [float(z) for z in v.reshape(-1).tolist()]
+        for pi, (path, dt_, gv) in enumerate(zip(paths, dts, got)):
+            lr = [math.log(path[i + 1]) - math.log(path[i]) for i in range(T - 1)]
+            exp = sum(z * z / dt_ for z in lr) / len(lr)
+            exp = math.sqrt(exp) if fn_name == "realized_volatility" else exp
+            if not close(gv, exp):
+                ctx.fail(f"{fn_name} with a tensor dt differs from the documented formula with the interval of that path", case,
+                         key=f"{fn_name}:tensor-dt:value", detail={"path_index": pi, "impl": gv, "expected": exp, "dt_of_path": dt_})
+                break
+        if fn_name == "realized_volatility":
+            pi = g.randint(0, N * M - 1)
+            rv_reqs.append({"op": "var_swap", "dt": float_bits(dts[pi]), "strike": float_bits(0.0), "paths": enc_flt([paths[pi]])})
+            rv_meta.append(got[pi])
     try:
         bouts = ctx.driver([{"op": "bilerp", "elems": enc_rat(breq)}])
         wwouts = ctx.driver(wwreqs)
@@ -353,4 +459,6 @@ def check(ctx):
     return ctx.finish(
         rule="clamps: dyadic x/bounds with ties on the bounds, inverted/one-sided/scalar/tensor bounds, slopes in {0,1/128,1/8,1/4,1/2,1}, "
              "both inverted_output modes and an invalid one, functions and modules; non-trivial = some bound given. "
-             "WW: prev placed inside/outside/on the band, costs {0..5e-2}, a in {1/4,1,3}; helpers on random reals; distinct = sha1 of canonical case")
+             "WW: prev placed inside/outside/on the band, costs {0..5e-2}, a in {1/4,1,3}, one module re-used after underlier.cost changed (to 0, from 0, "
+             "between positive costs); helpers on random reals; realized variance/volatility with float and tensor dt (0-dim, one interval per path: "
+             "(N,) / (N,M), incl. last batch dimension == T-1); distinct = sha1 of canonical case")
